@@ -277,6 +277,11 @@ impl<'a> Parser<'a> {
         let start = self.current.span;
         let id = self.parse_binding_pattern()?;
 
+        // Definite assignment assertion: `let x!: T;`
+        if self.check(&TokenKind::Bang) && self.peek_is(&TokenKind::Colon) {
+            self.advance();
+        }
+
         // Optional type annotation
         let type_annotation = if self.match_token(&TokenKind::Colon) {
             Some(Box::new(self.parse_type_annotation()?))
@@ -501,16 +506,35 @@ impl<'a> Parser<'a> {
     fn parse_function_declaration_inner(&mut self) -> Result<FunctionDeclaration, JsError> {
         let start = self.current.span;
 
-        let generator = self.match_token(&TokenKind::Star);
-        let id = if self.check_identifier() {
+        let mut generator = self.match_token(&TokenKind::Star);
+        let mut id = if self.check_identifier() {
             Some(self.parse_identifier()?)
         } else {
             None
         };
 
-        let type_parameters = self.parse_optional_type_parameters()?;
-        let params: Rc<[_]> = self.parse_function_params()?.into();
-        let return_type = self.parse_optional_return_type()?;
+        let mut type_parameters = self.parse_optional_type_parameters()?;
+        let mut params: Rc<[_]> = self.parse_function_params()?.into();
+        let mut return_type = self.parse_optional_return_type()?;
+        // Overload signatures (`function f(a: number): number;`) declare nothing at run
+        // time: skip them up to the implementation that follows.
+        while id.is_some() && !self.check(&TokenKind::LBrace) {
+            self.match_token(&TokenKind::Semicolon);
+            if self.check(&TokenKind::Export) && self.peek_is(&TokenKind::Function) {
+                self.advance();
+            }
+            if self.check(&TokenKind::Async) && self.peek_is(&TokenKind::Function) {
+                self.advance();
+            }
+            if !self.match_token(&TokenKind::Function) {
+                return Err(self.unexpected_token("function implementation"));
+            }
+            generator = self.match_token(&TokenKind::Star);
+            id = Some(self.parse_identifier()?);
+            type_parameters = self.parse_optional_type_parameters()?;
+            params = self.parse_function_params()?.into();
+            return_type = self.parse_optional_return_type()?;
+        }
         let body = Rc::new(self.parse_block_statement()?);
 
         let span = self.span_from(start);
@@ -534,6 +558,18 @@ impl<'a> Parser<'a> {
 
         while !self.check(&TokenKind::RParen) && !self.is_at_end() {
             let param_start = self.current.span;
+
+            // `this: T` is a type-only pseudo parameter
+            if self.check(&TokenKind::This) {
+                self.advance();
+                if self.match_token(&TokenKind::Colon) {
+                    self.parse_type_annotation()?;
+                }
+                if !self.match_token(&TokenKind::Comma) {
+                    break;
+                }
+                continue;
+            }
 
             // Parse parameter decorators (e.g., @inject param)
             let decorators = self.parse_decorators()?;
@@ -655,7 +691,12 @@ impl<'a> Parser<'a> {
         let type_parameters = self.parse_optional_type_parameters()?;
 
         let super_class = if self.match_token(&TokenKind::Extends) {
-            Some(Rc::new(self.parse_left_hand_side_expression()?))
+            let expr = self.parse_left_hand_side_expression()?;
+            // class B extends A<number>
+            if self.check(&TokenKind::Lt) {
+                self.parse_optional_type_arguments()?;
+            }
+            Some(Rc::new(expr))
         } else {
             None
         };
@@ -812,6 +853,29 @@ impl<'a> Parser<'a> {
             MethodKind::Method
         };
 
+        // Index signature `[key: string]: T;` - a declaration only
+        if self.check(&TokenKind::LBracket) {
+            let checkpoint = self.lexer.checkpoint();
+            let saved_current = self.current.clone();
+            self.advance();
+            if self.check_identifier() && self.peek_is(&TokenKind::Colon) {
+                self.advance();
+                self.advance();
+                self.parse_type_annotation()?;
+                self.require_token(&TokenKind::RBracket)?;
+                self.require_token(&TokenKind::Colon)?;
+                self.parse_type_annotation()?;
+                self.expect_semicolon()?;
+                self.last_member_abstract = true;
+                return Ok(ClassMember::StaticBlock(BlockStatement {
+                    body: Rc::from([]),
+                    span: self.span_from(start),
+                }));
+            }
+            self.lexer.restore(checkpoint);
+            self.current = saved_current;
+        }
+
         let (key, computed) = self.parse_class_element_name()?;
 
         // Method or property?
@@ -821,8 +885,9 @@ impl<'a> Parser<'a> {
             let params: Rc<[_]> = self.parse_function_params()?.into();
             let return_type = self.parse_optional_return_type()?;
 
-            // Abstract methods have no body - just a semicolon
-            let body = if is_abstract {
+            // Abstract methods and overload signatures have no body - just a semicolon
+            let body = if is_abstract || !self.check(&TokenKind::LBrace) {
+                self.last_member_abstract = true;
                 self.expect_semicolon()?;
                 // Create empty body for abstract methods (they're never called at runtime)
                 Rc::new(BlockStatement {
@@ -1913,6 +1978,14 @@ impl<'a> Parser<'a> {
         } else if self.match_token(&TokenKind::LBrace) {
             while !self.check(&TokenKind::RBrace) && !self.is_at_end() {
                 let spec_start = self.current.span;
+                // `import { type T, v }`: a type-only specifier binds nothing
+                let inline_type = self.check(&TokenKind::Type)
+                    && !self.peek_is(&TokenKind::Comma)
+                    && !self.peek_is(&TokenKind::RBrace)
+                    && !self.peek_is(&TokenKind::As);
+                if inline_type {
+                    self.advance();
+                }
                 let imported = self.parse_identifier()?;
                 let local = if self.match_token(&TokenKind::As) {
                     self.parse_identifier()?
@@ -1920,11 +1993,13 @@ impl<'a> Parser<'a> {
                     imported.clone()
                 };
                 let span = self.span_from(spec_start);
-                specifiers.push(ImportSpecifier::Named {
-                    local,
-                    imported,
-                    span,
-                });
+                if !inline_type {
+                    specifiers.push(ImportSpecifier::Named {
+                        local,
+                        imported,
+                        span,
+                    });
+                }
 
                 if !self.match_token(&TokenKind::Comma) {
                     break;
@@ -2046,6 +2121,14 @@ impl<'a> Parser<'a> {
 
             while !self.check(&TokenKind::RBrace) && !self.is_at_end() {
                 let spec_start = self.current.span;
+                // `export { type T, v }`: a type-only specifier exports nothing
+                let inline_type = self.check(&TokenKind::Type)
+                    && !self.peek_is(&TokenKind::Comma)
+                    && !self.peek_is(&TokenKind::RBrace)
+                    && !self.peek_is(&TokenKind::As);
+                if inline_type {
+                    self.advance();
+                }
                 // In export specifiers, 'default' is allowed as a name
                 let local = self.parse_module_export_name()?;
                 let exported = if self.match_token(&TokenKind::As) {
@@ -2054,11 +2137,13 @@ impl<'a> Parser<'a> {
                     local.clone()
                 };
                 let span = self.span_from(spec_start);
-                specifiers.push(ExportSpecifier {
-                    local,
-                    exported,
-                    span,
-                });
+                if !inline_type {
+                    specifiers.push(ExportSpecifier {
+                        local,
+                        exported,
+                        span,
+                    });
+                }
 
                 if !self.match_token(&TokenKind::Comma) {
                     break;
@@ -2386,8 +2471,38 @@ impl<'a> Parser<'a> {
         let saved_current = self.current.clone();
         let checkpoint = self.lexer.checkpoint();
 
+        // Generic arrow function: <T, U extends X = Y>(params): R => body
+        if let Ok(Some(type_params)) = self.parse_optional_type_parameters()
+            && self.check(&TokenKind::LParen)
+        {
+            self.advance();
+            let params = if self.match_token(&TokenKind::RParen) {
+                Ok(vec![])
+            } else {
+                self.try_parse_arrow_params()
+            };
+            if let Ok(params) = params
+                && (self.check(&TokenKind::Arrow) || self.check(&TokenKind::Colon))
+                && let Ok(Expression::ArrowFunction(mut arrow)) =
+                    self.parse_arrow_function_from_params(params, start)
+            {
+                arrow.type_parameters = Some(type_params);
+                return Ok(Some(Expression::ArrowFunction(arrow)));
+            }
+        }
+        self.current = saved_current.clone();
+        self.lexer.restore(checkpoint);
+        let checkpoint = self.lexer.checkpoint();
+
         // Consume <
         self.advance();
+
+        // <const>expr
+        if self.check(&TokenKind::Const) && self.peek_is(&TokenKind::Gt) {
+            self.advance();
+            self.advance();
+            return Ok(Some(self.parse_unary_expression()?));
+        }
 
         // Try to parse a type
         match self.parse_type_annotation() {
@@ -2628,8 +2743,11 @@ impl<'a> Parser<'a> {
             });
         }
 
-        // TypeScript type assertion (as)
-        if self.match_token(&TokenKind::As) {
+        // TypeScript type assertions: `e as T`, `e satisfies T`, chained (`e as any as T`)
+        while self.check(&TokenKind::As)
+            || (self.check_keyword("satisfies") && !self.lexer.had_newline_before())
+        {
+            self.advance();
             // Handle "as const" - const assertion (TypeScript 3.4+)
             // This is a compile-time feature; at runtime we just return the value unchanged
             if self.match_token(&TokenKind::Const) {
@@ -3084,8 +3202,7 @@ impl<'a> Parser<'a> {
                     let type_checkpoint = self.lexer.checkpoint();
                     let type_saved_current = self.current.clone();
 
-                    self.advance(); // consume ':'
-                    if let Ok(_type_ann) = self.parse_type_annotation()
+                    if let Ok(_type_ann) = self.parse_optional_return_type()
                         && self.check(&TokenKind::Arrow)
                     {
                         // Restore and let parse_arrow_function_from_params handle it
@@ -3106,8 +3223,7 @@ impl<'a> Parser<'a> {
                 let type_checkpoint = self.lexer.checkpoint();
                 let type_saved_current = self.current.clone();
 
-                self.advance(); // consume ':'
-                if let Ok(_type_ann) = self.parse_type_annotation()
+                if let Ok(_type_ann) = self.parse_optional_return_type()
                     && self.check(&TokenKind::Arrow)
                 {
                     // Restore and let parse_arrow_function_from_params handle it
@@ -3343,6 +3459,15 @@ impl<'a> Parser<'a> {
         // async function - async function expression
         if self.check(&TokenKind::Function) {
             return self.parse_function_expression(true);
+        }
+
+        // async <T>(x: T) => ...
+        if self.check(&TokenKind::Lt)
+            && let Some(Expression::ArrowFunction(mut arrow)) =
+                self.try_parse_angle_bracket_assertion()?
+        {
+            arrow.async_ = true;
+            return Ok(Expression::ArrowFunction(arrow));
         }
 
         // async () => or async (params) =>
@@ -3711,10 +3836,78 @@ impl<'a> Parser<'a> {
         }))
     }
 
+    /// A primary type followed by any number of `[]` (array) and `[K]` (indexed access)
+    /// suffixes: `(A | B)[]`, `(T)[number]`, `{ a: 1 }["a"]`, `string[][]`.
     fn parse_primary_type(&mut self) -> Result<TypeAnnotation, JsError> {
+        let start = self.current.span;
+        let mut ty = self.parse_primary_type_base()?;
+        while self.check(&TokenKind::LBracket) {
+            self.advance();
+            if self.match_token(&TokenKind::RBracket) {
+                ty = TypeAnnotation::Array(ArrayType {
+                    element_type: Box::new(ty),
+                    span: self.span_from(start),
+                });
+            } else {
+                let index_type = self.parse_type_annotation()?;
+                self.require_token(&TokenKind::RBracket)?;
+                ty = TypeAnnotation::Indexed(IndexedAccessType {
+                    object_type: Box::new(ty),
+                    index_type: Box::new(index_type),
+                    span: self.span_from(start),
+                });
+            }
+        }
+        Ok(ty)
+    }
+
+    fn parse_primary_type_base(&mut self) -> Result<TypeAnnotation, JsError> {
         let start = self.current.span;
 
         match &self.current.kind {
+            // `this` type
+            TokenKind::This => {
+                self.advance();
+                Ok(TypeAnnotation::This)
+            }
+
+            // bigint literal type: 1n
+            TokenKind::BigInt(_) => {
+                self.advance();
+                Ok(TypeAnnotation::Keyword(TypeKeyword {
+                    keyword: TypeKeywordKind::BigInt,
+                    span: self.span_from(start),
+                }))
+            }
+
+            // negative number literal type: -1
+            TokenKind::Minus => {
+                self.advance();
+                if matches!(self.current.kind, TokenKind::BigInt(_)) {
+                    self.advance();
+                    return Ok(TypeAnnotation::Keyword(TypeKeyword {
+                        keyword: TypeKeywordKind::BigInt,
+                        span: self.span_from(start),
+                    }));
+                }
+                if let TokenKind::Number(n) = &self.current.kind {
+                    let n = -*n;
+                    self.advance();
+                    Ok(TypeAnnotation::Literal(TypeLiteral {
+                        value: LiteralValue::Number(n),
+                        span: self.span_from(start),
+                    }))
+                } else {
+                    Err(self.unexpected_token("number literal"))
+                }
+            }
+
+            // readonly T[] / readonly [A, B]
+            TokenKind::Readonly => {
+                self.advance();
+                self.parse_primary_type()
+            }
+
             // keyof operator: keyof T
             TokenKind::Keyof => {
                 self.advance();
@@ -3771,92 +3964,55 @@ impl<'a> Parser<'a> {
             // Type keywords
             TokenKind::Any => {
                 self.advance();
-                let mut ty = TypeAnnotation::Keyword(TypeKeyword {
+                let ty = TypeAnnotation::Keyword(TypeKeyword {
                     keyword: TypeKeywordKind::Any,
                     span: self.span_from(start),
                 });
-                // Array shorthand: any[]
-                while self.check(&TokenKind::LBracket) {
-                    self.advance();
-                    self.require_token(&TokenKind::RBracket)?;
-                    ty = TypeAnnotation::Array(ArrayType {
-                        element_type: Box::new(ty),
-                        span: self.span_from(start),
-                    });
-                }
                 Ok(ty)
             }
             TokenKind::Unknown => {
                 self.advance();
-                let mut ty = TypeAnnotation::Keyword(TypeKeyword {
+                let ty = TypeAnnotation::Keyword(TypeKeyword {
                     keyword: TypeKeywordKind::Unknown,
                     span: self.span_from(start),
                 });
-                // Array shorthand: unknown[]
-                while self.check(&TokenKind::LBracket) {
-                    self.advance();
-                    self.require_token(&TokenKind::RBracket)?;
-                    ty = TypeAnnotation::Array(ArrayType {
-                        element_type: Box::new(ty),
-                        span: self.span_from(start),
-                    });
-                }
                 Ok(ty)
             }
             TokenKind::Never => {
                 self.advance();
-                let mut ty = TypeAnnotation::Keyword(TypeKeyword {
+                let ty = TypeAnnotation::Keyword(TypeKeyword {
                     keyword: TypeKeywordKind::Never,
                     span: self.span_from(start),
                 });
-                // Array shorthand: never[]
-                while self.check(&TokenKind::LBracket) {
-                    self.advance();
-                    self.require_token(&TokenKind::RBracket)?;
-                    ty = TypeAnnotation::Array(ArrayType {
-                        element_type: Box::new(ty),
-                        span: self.span_from(start),
-                    });
-                }
                 Ok(ty)
             }
             TokenKind::Void => {
                 self.advance();
-                let mut ty = TypeAnnotation::Keyword(TypeKeyword {
+                let ty = TypeAnnotation::Keyword(TypeKeyword {
                     keyword: TypeKeywordKind::Void,
                     span: self.span_from(start),
                 });
-                // Array shorthand: void[]
-                while self.check(&TokenKind::LBracket) {
-                    self.advance();
-                    self.require_token(&TokenKind::RBracket)?;
-                    ty = TypeAnnotation::Array(ArrayType {
-                        element_type: Box::new(ty),
-                        span: self.span_from(start),
-                    });
-                }
                 Ok(ty)
             }
             TokenKind::Null => {
                 self.advance();
-                let mut ty = TypeAnnotation::Keyword(TypeKeyword {
+                let ty = TypeAnnotation::Keyword(TypeKeyword {
                     keyword: TypeKeywordKind::Null,
                     span: self.span_from(start),
                 });
-                // Array shorthand: null[]
-                while self.check(&TokenKind::LBracket) {
-                    self.advance();
-                    self.require_token(&TokenKind::RBracket)?;
-                    ty = TypeAnnotation::Array(ArrayType {
-                        element_type: Box::new(ty),
-                        span: self.span_from(start),
-                    });
-                }
                 Ok(ty)
             }
 
             // Identifier (type reference or built-in type name)
             TokenKind::Identifier(name) => {
+                // `unique symbol`
+                if name.as_str() == "unique" && self.peek_is(&TokenKind::Identifier(name.clone())) {
+                    self.advance();
+                }
+                let name = match &self.current.kind {
+                    TokenKind::Identifier(n) => n.clone(),
+                    _ => return Err(self.unexpected_token("type")),
+                };
                 let keyword = match name.as_str() {
                     "string" => Some(TypeKeywordKind::String),
                     "number" => Some(TypeKeywordKind::Number),
@@ -3870,20 +4026,11 @@ impl<'a> Parser<'a> {
 
                 if let Some(kw) = keyword {
                     self.advance();
-                    let mut ty = TypeAnnotation::Keyword(TypeKeyword {
+                    let ty = TypeAnnotation::Keyword(TypeKeyword {
                         keyword: kw,
                         span: self.span_from(start),
                     });
 
-                    // Array shorthand: string[]
-                    while self.check(&TokenKind::LBracket) {
-                        self.advance();
-                        self.require_token(&TokenKind::RBracket)?;
-                        ty = TypeAnnotation::Array(ArrayType {
-                            element_type: Box::new(ty),
-                            span: self.span_from(start),
-                        });
-                    }
 
                     Ok(ty)
                 } else {
@@ -3923,7 +4070,11 @@ impl<'a> Parser<'a> {
                 // Check for mapped type: { [P in keyof T]: T[P] }
                 // vs index signature: { [key: string]: T }
                 // We need to detect: { [ident in ...]
-                if self.check(&TokenKind::Readonly) || self.check(&TokenKind::LBracket) {
+                if self.check(&TokenKind::Readonly)
+                    || self.check(&TokenKind::LBracket)
+                    || self.check(&TokenKind::Plus)
+                    || self.check(&TokenKind::Minus)
+                {
                     // Try to parse as mapped type
                     if let Some(mapped) = self.try_parse_mapped_type(start)? {
                         return Ok(mapped);
@@ -3932,20 +4083,11 @@ impl<'a> Parser<'a> {
 
                 let members = self.parse_type_members()?;
                 self.require_token(&TokenKind::RBrace)?;
-                let mut ty = TypeAnnotation::Object(ObjectType {
+                let ty = TypeAnnotation::Object(ObjectType {
                     members,
                     span: self.span_from(start),
                 });
 
-                // Array shorthand: { a: number }[]
-                while self.check(&TokenKind::LBracket) {
-                    self.advance();
-                    self.require_token(&TokenKind::RBracket)?;
-                    ty = TypeAnnotation::Array(ArrayType {
-                        element_type: Box::new(ty),
-                        span: self.span_from(start),
-                    });
-                }
 
                 Ok(ty)
             }
@@ -3961,19 +4103,10 @@ impl<'a> Parser<'a> {
                     }
                 }
                 self.require_token(&TokenKind::RBracket)?;
-                let mut ty = TypeAnnotation::Tuple(TupleType {
+                let ty = TypeAnnotation::Tuple(TupleType {
                     element_types: types,
                     span: self.span_from(start),
                 });
-                // Array shorthand: [string, number][]
-                while self.check(&TokenKind::LBracket) {
-                    self.advance();
-                    self.require_token(&TokenKind::RBracket)?;
-                    ty = TypeAnnotation::Array(ArrayType {
-                        element_type: Box::new(ty),
-                        span: self.span_from(start),
-                    });
-                }
                 Ok(ty)
             }
 
@@ -3996,17 +4129,8 @@ impl<'a> Parser<'a> {
                 self.advance();
                 let inner_ty = self.parse_type_annotation()?;
                 self.require_token(&TokenKind::RParen)?;
-                let mut ty = TypeAnnotation::Parenthesized(Box::new(inner_ty));
+                let ty = TypeAnnotation::Parenthesized(Box::new(inner_ty));
 
-                // Array shorthand: (number | undefined)[]
-                while self.check(&TokenKind::LBracket) {
-                    self.advance();
-                    self.require_token(&TokenKind::RBracket)?;
-                    ty = TypeAnnotation::Array(ArrayType {
-                        element_type: Box::new(ty),
-                        span: self.span_from(start),
-                    });
-                }
 
                 Ok(ty)
             }
@@ -4342,7 +4466,17 @@ impl<'a> Parser<'a> {
 
     fn parse_type_reference(&mut self) -> Result<TypeReference, JsError> {
         let start = self.current.span;
-        let name = self.parse_identifier()?;
+        let mut name = self.parse_identifier()?;
+        // qualified name: Ns.Inner.Type (kept as one dotted name; types are erased)
+        while self.check(&TokenKind::Dot) {
+            self.advance();
+            let part = self.parse_identifier()?;
+            let joined = format!("{}.{}", name.name, part.name);
+            name = Identifier {
+                name: self.intern(&joined),
+                span: self.span_from(start),
+            };
+        }
         let type_arguments = self.parse_optional_type_arguments()?;
         let span = self.span_from(start);
         Ok(TypeReference {
@@ -4377,6 +4511,16 @@ impl<'a> Parser<'a> {
                     readonly,
                     span,
                 }));
+            } else if self.check(&TokenKind::LParen)
+                || self.check(&TokenKind::Lt)
+                || (self.check(&TokenKind::New)
+                    && (self.peek_is(&TokenKind::LParen) || self.peek_is(&TokenKind::Lt)))
+            {
+                // Call signature `(x: T): U`, `<T>(x: T): T` or construct signature `new (x: T): U`
+                self.match_token(&TokenKind::New);
+                self.parse_optional_type_parameters()?;
+                self.parse_function_params()?;
+                self.parse_optional_return_type()?;
             } else {
                 let key = self.parse_property_name()?;
                 let optional = self.match_token(&TokenKind::Question);
@@ -5254,6 +5398,9 @@ impl<'a> Parser<'a> {
                 let pattern = self.expression_to_pattern(expr)?;
                 Ok(AssignmentTarget::Pattern(pattern))
             }
+            // `a.b! = 1`, `(a.b as T) = 1`: the static wrapper is transparent
+            Expression::NonNull(n) => self.expression_to_assignment_target(&n.expression),
+            Expression::TypeAssertion(t) => self.expression_to_assignment_target(&t.expression),
             _ => Err(JsError::syntax_error(
                 "Invalid assignment target",
                 expr.span().line,
